@@ -31,7 +31,15 @@ Fixed == { [kind |-> "table"], [kind |-> "fold"],
            [kind |-> "hashb_rand", count |-> IF Thorough THEN 2000 ELSE 300, maxlen |-> 200],
            [kind |-> "het", count |-> IF Thorough THEN 300 ELSE 60, widths |-> <<8, 16, 32, 48, 56, 64>>] }
 
-Cases == SetToSeq(Fixed) \o SetToSeq(EncCases)
+\* buffers beyond 1 MiB (e.g. big single-unit files, hash tables with > 65536 entries): constant plaintext,
+\* probe words checked against the reference keystream
+BigCases == IF Thorough
+            THEN {[kind |-> "enc_big", key |-> <<4660, 22136>>, byte |-> 0, len |-> 1048580],
+                  [kind |-> "enc_big", key |-> <<51966, 47806>>, byte |-> 65, len |-> 2097157],
+                  [kind |-> "enc_big", key |-> <<1, 2>>, byte |-> 255, len |-> 4194310]}
+            ELSE {[kind |-> "enc_big", key |-> <<4660, 22136>>, byte |-> 65, len |-> 1048586]}
+
+Cases == SetToSeq(Fixed) \o SetToSeq(EncCases) \o SetToSeq(BigCases)
 ASSUME ndJsonSerialize(IOEnv.CASES, Cases)
 ASSUME PrintT(<<"GENERATED", Len(Cases)>>)
 =============================================================================
